@@ -49,7 +49,7 @@ type fileCtx struct {
 type customOpt struct {
 	target string // "File", "Message", "Field", "Enum", "EnumValue", "Oneof", "Service", "Method", "ExtensionRange"
 	num    int32
-	kind   descriptorpb.FieldDescriptorProto_Type // int32, bool or string
+	kind   descriptorpb.FieldDescriptorProto_Type // int32, bool, string or message (a descriptor.proto message)
 }
 
 type msgSym struct {
